@@ -175,9 +175,9 @@ def c11_units(tier):
         Unit("validate-vs-spec", hs, "zzC11_Validate_T2", {"loop": 40, "rec": 3}, bounds="plan documents with <=2 tasks, <=2 after entries each, every title/body present or absent, blank or not, equal or distinct; hasPlanCycle's recursion unwound to depth 3 with unwinding assertions"),
         Unit("run-plan", hs, "zzC11_Run_T2", {"loop": 40, "rec": 3, "stubs": "hasCycle=zzHasCycleSpec,hasPlanCycle=zzPlanCycleSpec", "only": "C11/,C16/"}, note="hasCycle / hasPlanCycle replaced by their summaries (checked by C07 hasCycle-vs-spec and by validate-vs-spec)", bounds="store of 2 items + 1 pruned id; plan of <=2 tasks with <=1 after entry each; parse error or not; lock busy or free"),
     ]
+    us.append(Unit("validate-vs-spec-3", hs, "zzC11_Validate_T3A1", {"loop": 40, "rec": 4}, bounds="plan documents with <=3 tasks, <=1 after entry each (cycles of length 3 included); 3 tasks with 2 after entries each did not finish in an hour and is not registered"))
     us.append(Unit("plan-all-or-nothing", ["c10.go", "c11.go", "c03.go"], "zzC04_PlanAtomic", {"loop": 40, "rec": 3, "stubs": "hasCycle=zzHasCycleSpec,hasPlanCycle=zzPlanCycleSpec,sortedKeys=zzSortedKeysCut", "only": "C11/"}, note="file model with symbolic crash point (see C03/C04)", bounds="clean log of <=1 event; plan of 1 task; killed at any effect index; stale temp file possible"))
     if tier == "thorough":
-        us.append(Unit("validate-vs-spec-t3", hs, "zzC11_Validate_T3", {"loop": 40, "rec": 4, "_wall": 7000}, bounds="<=3 tasks, <=2 after entries each"))
         us.append(Unit("run-plan-a2", hs, "zzC11_Run_T2A2", {"loop": 40, "rec": 3, "stubs": "hasCycle=zzHasCycleSpec,hasPlanCycle=zzPlanCycleSpec", "only": "C11/,C16/", "_wall": 7000}, bounds="plan of <=2 tasks with <=2 after entries each"))
     return us
 
